@@ -2614,3 +2614,17 @@ V(id='c37-gmpy-mul-int-ignores-rounding', prop='C37', file='mpmath/libmp/libmpf.
   edits=[("        return mpf_mul(s, from_int(n), prec, rnd)\n", "        return mpf_mul(s, from_int(n), prec, round_nearest)\n"),
          ("    return normalize(sign, man, exp, bitcount(man), prec, rnd)\n", "    return normalize(sign, man, exp, bitcount(man), prec, round_nearest)\n")],
   expect='fire:Y-R9:gmpy_mpf_mul_int')
+
+# ---- C13 third hunt: E-X4 powm1 exact integer path (fix a043bdb) ----
+V(id='c13-powm1-no-exact-integer-path', prop='C13', file='mpmath/functions/functions.py',
+  old="    if ctx.isint(y):\n        n = abs(int(y))\n", new="    if False and ctx.isint(y):\n        n = abs(int(y))\n",
+  expect='fire:E-X4:powm1')
+V(id='c13-powm1-exact-path-fixed-precision', prop='C13', file='mpmath/functions/functions.py',
+  old="                ctx.prec = max(orig, n*(span+2)) + 10\n", new="                ctx.prec = 2*orig + 10\n",
+  expect='fire:E-X4:powm1')
+V(id='c13-powm1-exact-path-ignores-exponent', prop='C13', file='mpmath/functions/functions.py',
+  old="                ctx.prec = max(orig, n*(span+2)) + 10\n", new="                ctx.prec = max(orig, span+2) + 10\n",
+  expect='fire:E-X4:powm1')
+V(id='c13-benign-powm1-exact-path-more-bits', prop='C13', file='mpmath/functions/functions.py',
+  old="                ctx.prec = max(orig, n*(span+2)) + 10\n", new="                ctx.prec = max(orig, n*(span+2)) + 30\n",
+  expect='silent')
